@@ -101,6 +101,27 @@ impl SimEnv {
     }
 }
 
+
+/// a random extension list (MPLS stacks and unknown objects), as a router may attach to an ICMP error
+fn rand_exts(rng: &mut crate::rng::Rng) -> Option<trippy_core::Extensions> {
+    use trippy_core::{Extension, Extensions, MplsLabelStack, MplsLabelStackMember, UnknownExtension};
+    if !rng.chance(1, 4) {
+        return None;
+    }
+    let n = 1 + rng.below(3) as usize;
+    let extensions = (0..n).map(|_| {
+        if rng.chance(2, 3) {
+            let k = 1 + rng.below(3) as usize;
+            Extension::Mpls(MplsLabelStack { members: (0..k).map(|i| MplsLabelStackMember {
+                label: rng.below(1 << 20) as u32, exp: rng.below(8) as u8, bos: u8::from(i + 1 == k), ttl: rng.next() as u8 }).collect() })
+        } else {
+            let n = 4 * rng.below(3) as usize;
+            Extension::Unknown(UnknownExtension { class_num: *rng.pick(&[2u8, 3, 200]), class_subtype: rng.next() as u8, bytes: rng.bytes(n) })
+        }
+    }).collect();
+    Some(Extensions { extensions })
+}
+
 impl Env for SimEnv {
     fn on_send(&mut self, probe: &Probe) -> SendO {
         vclock::advance(self.send_cost_ns);
@@ -138,7 +159,7 @@ impl Env for SimEnv {
                 let d = ResponseData::new(vclock::from_ns(0), self.cfg.target, pr);
                 let r = match self.cfg.proto {
                     Protocol::Icmp => Response::EchoReply(d, IcmpPacketCode(0)),
-                    Protocol::Udp => Response::DestinationUnreachable(d, IcmpPacketCode(3), None),
+                    Protocol::Udp => { let e = rand_exts(&mut self.rng); Response::DestinationUnreachable(d, IcmpPacketCode(3), e) }
                     Protocol::Tcp => if self.rng.chance(1, 2) { Response::TcpReply(d) } else { Response::TcpRefused(d) },
                 };
                 let jitter = self.rng.below(delay / 4 + 1);
@@ -150,9 +171,14 @@ impl Env for SimEnv {
             if !h.silent && h.seen % h.every == 0 {
                 let (addr, delay, dup) = (h.addr, h.delay_ns, h.dup);
                 let d = ResponseData::new(vclock::from_ns(0), addr, pr.clone());
-                let exts = None;
+                let exts = rand_exts(&mut self.rng);
                 let jitter = self.rng.below(delay / 4 + 1);
-                let r = Response::TimeExceeded(d.clone(), IcmpPacketCode(0), exts.clone());
+                // mostly Time Exceeded; now and then a router answers Destination Unreachable (filtered / no route)
+                let r = if self.rng.chance(1, 12) {
+                    Response::DestinationUnreachable(d.clone(), IcmpPacketCode(*self.rng.pick(&[0u8, 1, 13])), exts.clone())
+                } else {
+                    Response::TimeExceeded(d.clone(), IcmpPacketCode(0), exts.clone())
+                };
                 self.schedule(now + delay + jitter, r, Some(probe.sequence.0));
                 if dup {
                     let r2 = Response::TimeExceeded(d, IcmpPacketCode(0), exts);
@@ -177,7 +203,8 @@ impl Env for SimEnv {
                 }
             }
             let pr2 = SimEnv::proto_resp(&cfg2, &p2, None);
-            let from = rand_addr(&mut self.rng, self.cfg.target.is_ipv6());
+            // the foreign response may well be SENT by this tracer's own target (another tracer probing through it)
+            let from = if self.rng.chance(1, 2) { self.cfg.target } else { rand_addr(&mut self.rng, self.cfg.target.is_ipv6()) };
             let r = Response::TimeExceeded(ResponseData::new(vclock::from_ns(0), from, pr2), IcmpPacketCode(0), None);
             let d = self.rng.below(3_000_000);
             self.pending.push((now + d, r, None, None));
